@@ -50,6 +50,7 @@ func newWorldFor(cfg RunCfg) (*World, map[string]int) {
 		panic(err)
 	}
 	w.RC = rc
+	w.ChunkMem = set&cbChunkMem != 0
 	return w, cmpOf
 }
 
